@@ -22,6 +22,10 @@ TNext == /\ l = 1 /\ l' = 2 /\ tid' = tid
                    \cup (IF T.completed THEN {} ELSE {"P_reexchange_did_not_complete"})
                    \cup (IF T.a_active /\ T.b_active THEN {} ELSE {"P_session_lost"})
                    \cup (IF T.delivered THEN {} ELSE {"P_inflight_traffic_not_delivered"})
+                   \* N reply-wanting requests crossed the exchange (want_seq: the reply type each must get, rep_seq: the replies
+                   \* the requester received): Rekey!NoReplyLost - as many replies as requests; and they come in request order
+                   \cup (IF Len(T.rep_seq) = Len(T.want_seq) THEN {} ELSE {"P_held_back_replies_dropped"})
+                   \cup (IF Len(T.rep_seq) # Len(T.want_seq) \/ T.rep_seq = T.want_seq THEN {} ELSE {"C_held_back_replies_out_of_order"})
                    \cup (IF T.usable THEN {} ELSE {"P_session_unusable_afterwards"})
                    \cup (IF T.user_intact THEN {} ELSE {"P_user_data_lost_or_reordered"})
 TSpec == TInit /\ [][TNext]_tvars
